@@ -40,6 +40,18 @@ func genTunnel(t *rapid.T) Round {
 	r.P["bytes"] = rapid.SampledFrom([]int{0, 1, 700, 40000}).Draw(t, "bytes")
 	r.P["reasons"] = rapid.IntRange(0, 3).Draw(t, "reasons") // 0: all closers use distinct reasons, 1: all Normal, 2: all PeerClosed, 3: via manager.CloseTunnel
 	r.P["udp"] = 0
+	if rapid.IntRange(0, 5).Draw(t, "udp") == 0 {
+		// protocol "udp": Tunnel.runDataCopy uses iocopy.UDP (length-prefixed datagrams, batch
+		// buffer + 20 ms flusher goroutine towards the tunnel)
+		r.P["udp"] = 1
+		r.P["bytes"] = rapid.SampledFrom([]int{0, 700}).Draw(t, "udpBytes")
+		if rapid.Bool().Draw(t, "writeFails") {
+			// tunnel writes start failing while the UDP side keeps delivering > 256 KiB: the
+			// UDP->tunnel loop leaves through its "batch full and flush failed" exit
+			r.Paths = append(r.Paths, "tunnel-write-fails")
+			r.P["udpStage"] = rapid.IntRange(0, 1).Draw(t, "udpStage") // 1: that exit is reached before the closers start
+		}
+	}
 	return r
 }
 
@@ -57,7 +69,15 @@ func runTunnel(r Round) *outcome {
 	peer, tun := vkit.NewBufConnPair("10.0.0.9:7000", "10.0.0.1:8000")
 	defer func() { app.Close(); peer.Close(); local.Close(); tun.Close() }()
 	var rwcCloses atomic.Int32
-	rwc, err := iocopy.NewReadWriteCloserWithCloseWrite(tun, tun, func() error { rwcCloses.Add(1); return tun.Close() }, tun.CloseWrite)
+	udp := r.p("udp") == 1
+	proto := "tcp"
+	if udp {
+		proto = "udp"
+		local.ReadCap.Store(1400) // one datagram per Read
+	}
+	var closeWrites atomic.Int32
+	rwc, err := iocopy.NewReadWriteCloserWithCloseWrite(tun, tun, func() error { rwcCloses.Add(1); return tun.Close() },
+		func() error { closeWrites.Add(1); return tun.CloseWrite() })
 	if err != nil {
 		o.skipped = true
 		return o
@@ -70,7 +90,7 @@ func runTunnel(r Round) *outcome {
 	closedReason.Store(-1)
 	id := "c16-tunnel"
 	tn := ctunnel.NewTunnel(&ctunnel.TunnelConfig{
-		ID: id, MappingID: "m1", Role: role, Protocol: "tcp",
+		ID: id, MappingID: "m1", Role: role, Protocol: proto,
 		LocalConn: local, TunnelConn: tun, TunnelRWC: rwc, TargetClient: 42,
 		Manager: mgr, Client: client,
 		OnClosed: func(reason ctunnel.CloseReason, err error) {
@@ -100,7 +120,12 @@ func runTunnel(r Round) *outcome {
 	if nb > 0 {
 		buf := make([]byte, nb)
 		app.Write(buf)
-		peer.Write(buf[:nb/2+1])
+		if udp { // tunnel -> UDP direction carries 2-byte length-prefixed datagrams
+			n := nb/2 + 1
+			peer.Write(append([]byte{byte(n >> 8), byte(n)}, buf[:n]...))
+		} else {
+			peer.Write(buf[:nb/2+1])
+		}
 		ok := pollUntil(2*time.Second, func() bool { return peer.Pending() >= nb && app.Pending() >= nb/2+1 })
 		if !ok {
 			o.skipped = true // copy did not deliver in time (load): not what this property is about
@@ -153,11 +178,24 @@ func runTunnel(r Round) *outcome {
 			rc.spin(kindPath, p, func() { cancel() })
 		case "fatal-error-notify":
 			rc.spin(kindPath, p, func() { mgr.OnTunnelError(id, "m1", "E1", "fatal", false) })
+		case "tunnel-write-fails":
+			fire := func() {
+				tun.FailWriteAfter.Store(tun.BytesWritten())
+				app.Write(make([]byte, 300*1024))
+			}
+			if r.p("udpStage") == 1 {
+				fire()
+				// the loop has left through the batch-full exit once it half-closes the tunnel
+				if pollUntil(2*time.Second, func() bool { return closeWrites.Load() >= 1 }) {
+					o.extraClass = append(o.extraClass, "udp-send-loop-left-on-failed-flush-before-close")
+				}
+			} else {
+				rc.spin(kindPath, p, fire)
+			}
 		}
 	}
 	rc.release()
-	if ok, dump := rc.waitBlocked(10*time.Second, 40*time.Second); !ok {
-		o.failf("C16/client-tunnel/close-did-not-return", "a Close call or completion path did not return within 10s"+"; goroutines inside the code under test:\n%s", dump)
+	if !rc.mustReturn(o, base, "Tunnel.Close or a completion path") {
 		return o
 	}
 	rc.measure(o)
@@ -187,7 +225,7 @@ func runTunnel(r Round) *outcome {
 		o.failf("C16/client-tunnel/close-notify-from-target-role", "target-role tunnel sent a close notification")
 	}
 	// traffic totals: reported once, i.e. the totals handed to OnClosed are the bytes copied
-	if onClosed.get() == 1 {
+	if onClosed.get() == 1 && !udp { // (udp: framing bytes and never-flushed batches make the two counts incomparable)
 		wantSent, wantRecv := tun.BytesWritten(), local.BytesWritten()
 		if gs, gr := statSent.Load(), statRecv.Load(); gs != wantSent || gr != wantRecv {
 			o.failf("C16/client-tunnel/traffic-totals-not-final-at-OnClosed",
